@@ -19,6 +19,18 @@ from .util import method_call, walk_no_nested
 from .util import U as U_
 
 
+# methods of the built-in containers and strings that only read their
+# receiver
+READER_METHODS = frozenset((
+    'get', 'keys', 'values', 'items', 'copy', 'index', 'count', 'lower',
+    'upper', 'casefold', 'strip', 'lstrip', 'rstrip', 'split', 'rsplit',
+    'splitlines', 'partition', 'rpartition', 'startswith', 'endswith',
+    'join', 'format', 'find', 'rfind', 'replace', 'isascii', 'isprintable',
+    'isdigit', 'isalpha', 'isalnum', 'isidentifier', 'isspace', 'encode',
+    'decode', 'title', 'capitalize', 'expandtabs', 'zfill', 'issubset',
+    'issuperset', 'isdisjoint', 'union', 'intersection', 'difference'))
+
+
 class Cond:
     __slots__ = ('expr', 'pol', 'line', 'kind', 'frame')
 
@@ -431,6 +443,58 @@ def _unroll_display_comp(node):
     return ast.copy_location(ast.List(elts=out, ctx=ast.Load()), node)
 
 
+def _strip_count(e, x_txt, side):
+    """e is len(X) - len(X.<side>(C)) -> C (ast) else None"""
+    if isinstance(e, ast.BinOp) and isinstance(e.op, ast.Sub):
+        a, b = e.left, e.right
+
+        def is_len(z):
+            return isinstance(z, ast.Call) and isinstance(
+                z.func, ast.Name) and z.func.id == 'len' and len(
+                    z.args) == 1 and not z.keywords
+        if is_len(a) and ast.unparse(a.args[0]) == x_txt and is_len(b):
+            c = b.args[0]
+            if isinstance(c, ast.Call) and isinstance(
+                    c.func, ast.Attribute) and c.func.attr == side and \
+                    ast.unparse(c.func.value) == x_txt and len(
+                        c.args) == 1 and not c.keywords:
+                return c.args[0]
+    return None
+
+
+def _fold_strip_slice(node):
+    """X[len(X) - len(X.lstrip(C)) : len(X) - (len(X) - len(X.rstrip(D)))]
+    is X.lstrip(C).rstrip(D): the leading run is cut off in front, the
+    trailing run behind, and when the two would overlap both are empty."""
+    k = node.slice
+    if not (isinstance(node.ctx, ast.Load) and isinstance(k, ast.Slice)
+            and k.step is None):
+        return None
+    x_txt = ast.unparse(node.value)
+    out = node.value
+    if k.lower is not None:
+        c = _strip_count(k.lower, x_txt, 'lstrip')
+        if c is None:
+            return None
+        out = ast.Call(func=ast.Attribute(value=out, attr='lstrip',
+                                          ctx=ast.Load()), args=[c],
+                       keywords=[])
+    if k.upper is not None:
+        u = k.upper
+        if not (isinstance(u, ast.BinOp) and isinstance(u.op, ast.Sub)
+                and ast.unparse(u.left) == 'len(%s)' % x_txt):
+            return None
+        d = _strip_count(u.right, x_txt, 'rstrip')
+        if d is None:
+            return None
+        out = ast.Call(func=ast.Attribute(value=out, attr='rstrip',
+                                          ctx=ast.Load()), args=[d],
+                       keywords=[])
+    if out is node.value:
+        return None
+    return ast.copy_location(out, node)
+
+
 class _Subst(ast.NodeTransformer):
     def __init__(self, env, attrs=None):
         self.env = env
@@ -470,6 +534,9 @@ class _Subst(ast.NodeTransformer):
         f = _fold_lookup(node)
         if f is not None:
             return f
+        st = _fold_strip_slice(node)
+        if st is not None:
+            return st
         # (a, b, c, d)[:3] / [1:] / [0] of a display written out right there
         v, k = node.value, node.slice
         if isinstance(node.ctx, ast.Load) and isinstance(
@@ -1679,6 +1746,8 @@ class Enumerator:
         if callee is None:
             # external / unknown callee: assume it may mutate the receiver
             # object itself but not rebind attributes of `self`
+            if isinstance(fn, ast.Attribute) and fn.attr in READER_METHODS:
+                return          # reads its receiver, writes nothing
             if isinstance(fn, ast.Attribute):
                 try:
                     recv = ast.unparse(fn.value)
